@@ -59,6 +59,7 @@ func main() {
 	write("HostMatcherWrites.lean", genHostMatcherWrites())
 	write("MapRanges.lean", genMapRanges())
 	write("LogWriterCloses.lean", genLogWriterCloses())
+	write("UsagePoolClients.lean", genUsagePoolClients())
 
 	// typed scan, cached by content hash of the scanned sources
 	h := hashTree(repo)
